@@ -212,6 +212,16 @@ CORPUS = [
     ("path", "root", (b"/", (), b"")),
     ("path", "dots", (b"/a/./../b", (), b"")),
     ("path", "lower_hex", (b"/a%2fb%c3%a9", (), b"")),
+    # targets that START with two slashes: urlparse() of the bare target (instead of the URL) would take the first
+    # segment for a network location.  Appended at the end so that the indices in older replay files stay valid.
+    ("query", "leading_double_slash", (b"//foo/bar?x=1", (), b"")),
+    ("query", "leading_double_slash", (b"///foo/bar?x=1&y=2", (), b"")),
+    ("query", "leading_double_slash", (b"//host:80/x?a=1&b", (), b"")),
+    ("query", "leading_double_slash", (b"//cdn.example.com/lib.js", (), b"")),
+    ("path", "double_slash", (b"//foo/bar", (), b"")),
+    ("path", "double_slash", (b"///foo/bar?x=1", (), b"")),
+    ("path", "double_slash", (b"//host:80/x", (), b"")),
+    ("path", "double_slash", (b"//cdn.example.com/lib.js;v=1?x=1#f", (), b"")),
 ]
 
 
@@ -246,7 +256,8 @@ def project(msg, view):
         rest = (tuple(msg.headers.fields), msg.raw_content)
         if view == "query":
             return (p, params, frag) + rest, [tuple(x) for x in viewsref.urlencoded_pairs(query or b"")]
-        return (params, query, frag) + rest, [(s,) for s in viewsref.path_segments(p)]
+        segs = viewsref.path_segments(p)
+        return (params, query, frag) + rest, [(s,) for s in segs], [(s,) for s in segs if s != b""]
     if view == "cookies":
         hv = [_s(v) for k, v in msg.headers.fields if k.lower() == b"cookie"]
         return (msg.data.path, _headers_except(msg, (b"cookie",)), msg.raw_content), \
@@ -272,8 +283,11 @@ def _local_ids(before, after):
         return tab.setdefault(x, len(tab) + 1)
 
     def one(pr):
-        other, meaning = pr
-        return {"other": i(("other", repr(other))), "meaning": [[i(c) for c in item] for item in meaning]}
+        other, meaning = pr[0], pr[1]
+        d = {"other": i(("other", repr(other))), "meaning": [[i(c) for c in item] for item in meaning]}
+        if len(pr) > 2:  # path view: the non-empty segments
+            d["core"] = [[i(c) for c in item] for item in pr[2]]
+        return d
 
     return one(before), one(after)
 
